@@ -8,7 +8,7 @@ print(f"""You are helping test a static-analysis effort for the Go library openc
 
 Your task: produce FOUR independent, realistic, strictly BEHAVIOUR-PRESERVING refactorings, each confined to one or two of these files (non-test source only):
   {', '.join(files)}
-Each refactoring must keep the exact observable behaviour of every function for every input (same results, same errors, same side effects, same generated output) — the kind of clean-up a maintainer merges without changing any test: renaming local variables, inverting an `if` and swapping its branches, replacing `if !ok {{ return err }}` chains with an equivalent switch (or vice versa), hoisting a repeated sub-expression into a local, extracting a small helper function (or inlining one), reordering independent statements, replacing a `for i := 0; i < n; i++` loop by an equivalent `range`, adding comments, splitting a long condition into named booleans. Touch the core logic of the functions, not just comments, and make each refactoring 10-40 changed lines. Vary the kind of refactoring across the four. Do NOT change behaviour, do NOT fix bugs, do NOT change exported API.
+Each refactoring must keep the exact observable behaviour of every function for every input (same results, same errors, same side effects, same generated output) — the kind of clean-up a maintainer merges without changing any test: renaming local variables, inverting an `if` and swapping its branches, replacing `if !ok {{ return err }}` chains with an equivalent switch (or vice versa), hoisting a repeated sub-expression into a local, extracting a small helper function (or inlining one), reordering independent statements, replacing a `for i := 0; i < n; i++` loop by an equivalent `range`, adding comments, splitting a long condition into named booleans. Touch the core logic of the functions, not just comments, and make each refactoring 10-50 changed lines. Prefer the functions with the most intricate control flow (dispatch switches, loops with early exits, error handling chains) over trivial helpers. Vary the kind of refactoring across the four. Do NOT change behaviour, do NOT fix bugs, do NOT change exported API.
 
 For each refactoring N in 1..4 create {wt}/BENIGN/N/ containing
   - patch.diff : `git diff` of the source change only (must apply with `git apply` on a clean worktree),
